@@ -263,6 +263,20 @@ func Build(specs []GenSpec) []gengo.Generator {
 				pkg := c.Package("").Pkg().Path()
 				bh := gs.For(pkg)
 				switch bh.Mode {
+				case "stateful":
+					// per-instance state is shared by the type and the alias path of one instance: a helper once per
+					// instance, a seen-set, call ordinals
+					name := "alias:" + a.Obj().Name()
+					if !inst.Helper {
+						inst.Helper = true
+						c.RenderT("// helper of @g, once per instance (first reached through an alias)\nfunc helper@gid() int { return @n }\n\n", snippet.Arg("g", snippet.Block(gs.Name)), snippet.Arg("gid", snippet.Block(sanitize(gs.Name))), snippet.Arg("n", snippet.Block(fmt.Sprint(len(inst.Seen)))))
+					}
+					if inst.Seen[name] {
+						c.RenderT("// @g: @n already seen by this instance\n", snippet.Arg("g", snippet.Block(gs.Name)), snippet.Arg("n", snippet.Block(name)))
+						return nil
+					}
+					inst.Seen[name] = true
+					c.RenderT("// @g saw alias @n as call #@k of this instance (@s names seen)\n\n", snippet.Arg("g", snippet.Block(gs.Name)), snippet.Arg("n", snippet.Block(a.Obj().Name())), snippet.Arg("k", snippet.Block(fmt.Sprint(inst.Calls))), snippet.Arg("s", snippet.Block(fmt.Sprint(len(inst.Seen)))))
 				case "alias-only", "render", "ignore-something":
 					c.RenderT("// @g @salt saw alias @n\n\n", snippet.Arg("g", snippet.Block(gs.Name)), snippet.Arg("salt", snippet.Block(bh.Salt)), snippet.Arg("n", snippet.Block(a.Obj().Name())))
 				case "alias-ignore-nothing":
